@@ -179,6 +179,9 @@ func poolByName(name string, quick bool) *hist.Pool {
 	if name == "punct" {
 		return c02.PunctPool()
 	}
+	if name == "slashchild" {
+		return c02.SlashChildPool()
+	}
 	if name == "nested" {
 		return c02.NestPool()
 	}
@@ -513,6 +516,7 @@ func run(c *mc.Ctx, r *mc.Result) {
 		add(func(r *mc.Result) { runPool(c, r, "prefixes", c02.PoolFor(true), 2, 3, 40000) })
 		add(func(r *mc.Result) { runPool(c, r, "siblings", c02.SiblingPool(), 4, 4, 8000) })
 		add(func(r *mc.Result) { runPool(c, r, "punct", c02.PunctPool(), 4, 4, 8000) })
+		add(func(r *mc.Result) { runPool(c, r, "slashchild", c02.SlashChildPool(), 4, 4, 8000) })
 		add(func(r *mc.Result) { runPool(c, r, "methods", c02.MethodPool(), 3, 3, 20000) })
 		add(func(r *mc.Result) { runPool(c, r, "nested", c02.NestPool(), 4, 4, 20000) })
 		add(func(r *mc.Result) { runPool(c, r, "hosts", c02.HostPool(), 3, 3, 20000) })
@@ -528,6 +532,7 @@ func run(c *mc.Ctx, r *mc.Result) {
 		add(func(r *mc.Result) { runPool(c, r, "methods", c02.MethodPool(), 4, 4, 100000) })
 		add(func(r *mc.Result) { runPool(c, r, "siblings", c02.SiblingPool(), 6, 5, 60000) })
 		add(func(r *mc.Result) { runPool(c, r, "punct", c02.PunctPool(), 6, 5, 60000) })
+		add(func(r *mc.Result) { runPool(c, r, "slashchild", c02.SlashChildPool(), 6, 5, 60000) })
 		add(func(r *mc.Result) { runPool(c, r, "nested", c02.NestPool(), 6, 5, 60000) })
 		add(func(r *mc.Result) { runPool(c, r, "hosts", c02.HostPool(), 5, 4, 60000) })
 		add(func(r *mc.Result) { runPool(c, r, "infix2", c02.Infix2Pool(), 5, 4, 60000) })
